@@ -14,7 +14,8 @@ use deno_ast::swc::ast::{
 use deno_ast::swc::ecma_visit::{noop_visit_type, Visit, VisitWith};
 use deno_ast::view::NodeTrait;
 use deno_ast::{
-  view as ast_view, SourceRange, SourceRanged, SourceRangedForSpanned,
+  view as ast_view, MediaType, SourceRange, SourceRanged,
+  SourceRangedForSpanned,
 };
 use derive_more::Display;
 
@@ -227,6 +228,15 @@ impl LintRule for VerbatimModuleSyntax {
     context: &mut Context,
     program: Program,
   ) {
+    // `import type` / `export type` and the inline `type` modifier are
+    // TypeScript syntax: in a JavaScript file there is nothing to ask for, and
+    // the offered fixes would not parse.
+    if matches!(
+      context.media_type(),
+      MediaType::JavaScript | MediaType::Jsx | MediaType::Mjs | MediaType::Cjs
+    ) {
+      return;
+    }
     let module = match program.program() {
       Program::Module(module) => module,
       Program::Script(_) => return,
